@@ -265,7 +265,8 @@ def step (c02 : Bool) (st : St) (toks : List Val) (impl : String) : St × Out :=
           match implList with
           | some l => if isPermInts l e.spec.elems then none else some "not-a-permutation-of-the-multiset"
           | none => some "not-a-list"
-        (st.set h.toNat e', rel diag m [op])
+        -- C01's tie is observational (DESIGN §5): the shape belongs to C02, so in C01 mode the traversal is judged by the predicate only
+        (st.set h.toNat e', rel diag (if c02 then m else impl) [op])
       else if op == "post" || op == "wpost" then
         let m := (ofInts e.tree.SlicePostOrder).render
         let (pre?, in?) := if op == "post" then (e.sPre, e.sIn) else (e.wPre, e.wIn)
@@ -285,7 +286,7 @@ def step (c02 : Bool) (st : St) (toks : List Val) (impl : String) : St × Out :=
                   | some false => (some "no-binary-tree-has-these-three-traversals", op ++ ".recon-fail")
                   | none => (none, op ++ ".recon-skipped-budget")
               | _, _ => (none, op ++ ".recon-no-block")
-        (st, rel diag m [tag])
+        (st, rel diag (if c02 then m else impl) [tag])
       else if op == "shape" then
         if c02 then
           let m := renderShape e.tree.root ""
